@@ -453,6 +453,17 @@ func ledgerSet(ds []Delta) string {
 // persisted: after the delta every success path passes a call of the persister that
 // receives the updated struct (the base pointer, or a load of it).
 func persisted(P *core.Program, ff *core.FuncFacts, d Delta) bool {
+	roots := map[ssa.Value]bool{d.Base: true}
+	if a, ok := d.Base.(*ssa.Alloc); ok && a.Referrers() != nil {
+		// a value parameter / call result spilled into a local: the stored value is the same record
+		for _, r := range *a.Referrers() {
+			if st, ok := r.(*ssa.Store); ok && st.Addr == ssa.Value(a) {
+				for _, o := range ff.Origins(st.Val) {
+					roots[o.Val] = true
+				}
+			}
+		}
+	}
 	isPersist := func(in ssa.Instruction) bool {
 		c, ok := in.(ssa.CallInstruction)
 		if !ok {
@@ -476,7 +487,7 @@ func persisted(P *core.Program, ff *core.FuncFacts, d Delta) bool {
 			}
 			// value loaded from the base earlier is not the updated one; only direct loads count
 			for _, o := range ff.Origins(a) {
-				if o.Val == d.Base {
+				if roots[o.Val] {
 					return true
 				}
 			}
